@@ -319,11 +319,22 @@ def getaxes_broadcast(obj, indices):
     return newaxes
 
 
+def _fits_exactly(newarr, dtype):
+    """ True if all (numeric) values in newarr can be stored in `dtype` without being changed
+    """
+    try:
+        with np.errstate(all='ignore'):
+            back = newarr.astype(dtype).astype(newarr.dtype)
+    except (OverflowError, ValueError, TypeError):
+        return False
+    return bool(np.all((back == newarr) | ((back != back) & (newarr != newarr))))
+
 def _maybe_cast_type(values, newval):
     """ cast rules (chosen so that no information is lost), especially
     useful for axis values.
     # a[:] = b : a.dtype.kind
     # i <- f : f
+    # i, f <- i, f of a wider type : widened if the new values would otherwise be changed (int32 <- 2**40, float32 <- 0.1)
     # U <- S : U
     # S <- U : U
     # O <- * : O
@@ -332,16 +343,20 @@ def _maybe_cast_type(values, newval):
     # * <- b : O
     """
     # check numpy-equivalent dtype
-    dtype = np.asarray(newval).dtype
-    
-    if values.dtype.kind == dtype.kind:
-        pass # same kind
-    elif values.dtype.kind == 'O':
-        pass # or already object
-    elif values.dtype.kind == 'f' and dtype.kind == 'i':
-        pass # ok
-    elif values.dtype.kind == 'i' and dtype.kind == 'f':
+    newarr = np.asarray(newval)
+    dtype = newarr.dtype
+
+    if values.dtype.kind == 'O':
+        pass # already object
+    elif values.dtype.kind in 'iu' and dtype.kind == 'f':
         values = np.asarray(values, dtype=float)
+    elif values.dtype.kind in 'iuf' and dtype.kind in 'iuf':
+        # same kind, or int into float: ok unless the type is too narrow for the new values
+        if not _fits_exactly(newarr, values.dtype):
+            values = np.asarray(values, dtype=np.result_type(values.dtype, dtype))
+    elif values.dtype.kind == dtype.kind:
+        if values.dtype.kind in 'US' and dtype.itemsize > values.dtype.itemsize:
+            values = np.asarray(values, dtype=dtype) # longer strings
     elif values.dtype.kind == 'U' and dtype.kind == 'S':
         pass
     elif values.dtype.kind == 'S' and dtype.kind == 'U':
